@@ -18,11 +18,11 @@ import (
 func init() {
 	Register(&Rule{Name: "FX-IMMUT", Floor: 60, Run: runFxImmut,
 		Doc: "no function writes a field of, or a mantissa word rooted at, a *Decimal parameter other than its result parameter; no dec-layer function writes elements of a source slice"})
-	Register(&Rule{Name: "FX-OWN", Floor: 20, Run: runFxOwn,
+	Register(&Rule{Name: "FX-OWN", Floor: 12, Run: runFxOwn,
 		Doc: "every value stored into a Decimal's mant field is backed by that Decimal's own array or fresh memory; exported functions do not hand out a parameter's mantissa"})
-	Register(&Rule{Name: "FX-GLOBAL", Floor: 10, Run: runFxGlobal,
+	Register(&Rule{Name: "FX-GLOBAL", Floor: 8, Run: runFxGlobal,
 		Doc: "no store to package-level state outside init; shared package-level Decimals are only ever operands"})
-	Register(&Rule{Name: "FX-DEP", Floor: 7, Run: runFxDep,
+	Register(&Rule{Name: "FX-DEP", Floor: 3, Run: runFxDep,
 		Doc: "the comparison family writes nothing and reads no precision, mode or accuracy"})
 }
 
@@ -193,6 +193,10 @@ func runFxOwn(m *model.Model, s *ob.Set) {
 				c := fmt.Sprintf("%s/mant-store#%d", name, n)
 				if roots.SubsetOf(okRoot) {
 					s.Ok(R, c, m.InstrPos(st), "roots "+roots.String())
+				} else if selfDerivedMant(m, st.Val, fa.X) {
+					// o.mant = f(o.mant, ...) for one and the same SSA object o (possibly a φ of the
+					// receiver and a fresh Decimal): whichever object o is, it gets its own array back
+					s.Ok(R, c, m.InstrPos(st), "derived from the mantissa of the very object it is stored into; roots "+roots.String())
 				} else if why, ok := share[name]; ok {
 					s.Note(R, c, m.InstrPos(st), "tabled sharing: "+why+"; roots "+roots.String())
 				} else {
@@ -370,4 +374,86 @@ func runFxDep(m *model.Model, s *ob.Set) {
 			s.Bad(R, n, m.Pos(fn.Pos()), strings.Join(bad, "; "))
 		}
 	}
+}
+
+// selfDerivedMant: every Decimal mantissa that v is derived from (through slicing, φ, type changes
+// and dec-layer calls) is loaded from the same SSA object `base`; other inputs are fresh buffers.
+func selfDerivedMant(m *model.Model, v ssa.Value, base ssa.Value) bool {
+	seen := map[ssa.Value]bool{}
+	found := false
+	var walk func(v ssa.Value, d int) bool
+	// result idx of a call: follow the callee's return-root summary into the arguments
+	walkCall := func(x *ssa.Call, idx int, d int) bool {
+		cal := x.Call.StaticCallee()
+		if cal == nil {
+			if b := model.BuiltinName(&x.Call); b == "append" || b == "make" {
+				for _, a := range x.Call.Args {
+					if m.IsWordSlice(a.Type()) && !walk(a, d-1) {
+						return false
+					}
+				}
+				return true
+			}
+			return false
+		}
+		if !m.InDecimalPkg(cal) {
+			return false
+		}
+		for l := range m.RetRoots(cal, idx) {
+			switch {
+			case l == "fresh" || l == "nil":
+			case strings.HasPrefix(l, "P") && !strings.Contains(l, "."):
+				var k int
+				fmt.Sscanf(l, "P%d", &k)
+				if k >= len(x.Call.Args) || !walk(x.Call.Args[k], d-1) {
+					return false
+				}
+			default:
+				return false
+			}
+		}
+		return true
+	}
+	walk = func(v ssa.Value, d int) bool {
+		if d == 0 {
+			return false
+		}
+		if seen[v] {
+			return true
+		}
+		seen[v] = true
+		switch x := v.(type) {
+		case *ssa.Const:
+			return true
+		case *ssa.UnOp:
+			if lf, ok := m.LoadOfDecField(x); ok && lf.Field == m.F.Mant {
+				if lf.X == base {
+					found = true
+					return true
+				}
+				return false
+			}
+			return false
+		case *ssa.Slice:
+			return walk(x.X, d-1)
+		case *ssa.ChangeType:
+			return walk(x.X, d-1)
+		case *ssa.Phi:
+			for _, e := range x.Edges {
+				if !walk(e, d-1) {
+					return false
+				}
+			}
+			return true
+		case *ssa.Extract:
+			if call, ok := x.Tuple.(*ssa.Call); ok {
+				return walkCall(call, x.Index, d)
+			}
+			return false
+		case *ssa.Call:
+			return walkCall(x, 0, d)
+		}
+		return false
+	}
+	return walk(v, 10) && found
 }
